@@ -368,6 +368,15 @@ class Evaluator:
                 raise Undefined('cfg format')
         return items
 
+    def t_foreachspecial(self, n, env):
+        # ENTRY[types] / REFaddr / EREFaddr: the addresses (decimal) in ascending order; no values - empty expansion
+        if not n.expected:
+            return ''
+        outs = [self.text(n.body, env.with_loop(n.id, v)) for v in n.expected]
+        sep = self.text(n.sep, env) if n.sep is not None else ''
+        fsep = self.text(n.fsep, env) if n.fsep is not None else sep
+        return self._join(outs, sep, fsep)
+
     def t_foreachpoke(self, n, env):
         items = self.poke_items(n.name, n.index)
         outs = [self.text(n.body, env.with_loop(n.id, v)) for v in items]
